@@ -512,6 +512,17 @@ def h_generator_old_shared():
     _gen(SHARED, False)
 
 
+def h_deep_recursion():
+    """A decorated function recursing 130 levels deep (well inside the interpreter's limit): 130 contexts are open at once on this thread,
+    all of them are closed again afterwards -- whatever the warnings configuration."""
+    @jaxtyped(typechecker=gc.checker("typeguard"))
+    def down(x: Shaped[np.ndarray, "vf12deep"], k: int) -> Shaped[np.ndarray, "vf12deep"]:
+        return x if k == 0 else down(x, k - 1)
+
+    out = down(np.zeros((3,)), 130)
+    assert out.shape == (3,)
+
+
 def h_generator_old_private_pytree_twin():
     """A private annotation object L is the leaf type of a PyTree annotation and then the annotation of an old-style generator (whatever
     jaxtyping does to L concerns L alone); a PyTree annotation over a freshly written, identically spelled leaf type is unaffected."""
@@ -764,14 +775,14 @@ HISTORY_OPS = {
     "check-pass": h_check_pass, "check-fail": h_check_fail, "check-raise": h_check_raise, "toplevel-check": h_toplevel_check,
     "pytree-pass": h_pytree_pass, "pytree-fail": h_pytree_fail, "pytree-q-misuse": h_pytree_q_misuse, "pytree-unbound-composite": h_pytree_unbound_composite,
     "decorate-shared-typeguard": h_decorate_shared_tg, "decorate-shared-beartype": h_decorate_shared_bt, "decorate-shared-old": h_decorate_shared_old,
-    "generator-old-unpickled": h_generator_old_unpickled, "generator-old-private-pytree-twin": h_generator_old_private_pytree_twin, "generator-old-inner-outer": h_generator_old_inner_outer, "generator-old-pytree": h_generator_old_pytree, "generator-new-shared": h_generator_new_shared, "generator-old-fresh": h_generator_old_fresh, "generator-old-shared": h_generator_old_shared,
+    "deep-recursion": h_deep_recursion, "generator-old-unpickled": h_generator_old_unpickled, "generator-old-private-pytree-twin": h_generator_old_private_pytree_twin, "generator-old-inner-outer": h_generator_old_inner_outer, "generator-old-pytree": h_generator_old_pytree, "generator-new-shared": h_generator_new_shared, "generator-old-fresh": h_generator_old_fresh, "generator-old-shared": h_generator_old_shared,
     "resubscribe": h_resubscribe, "pickle": h_pickle, "hook": h_hook, "hook-exception": h_hook_exception, "config-roundtrip": h_config_roundtrip,
     "pytree-union-inner-structured": h_pytree_union_inner_structured, "protocol-array-pass": h_protocol_array_pass, "address-reuse": h_address_reuse, "generator-none-suspended": h_generator_none_suspended, "forward-reference-early-call": h_forward_reference_early_call,
     "call-ok": h_call_ok, "call-ill": h_call_ill, "call-raises": h_call_raises, "thread-activity": h_thread_activity, "name-format": h_name_format,
 }
 KNOWN_EXCLUDED = {"generator-old-shared"}
 INTERESTING = {"check-fail", "check-raise", "pytree-fail", "pytree-q-misuse", "pytree-unbound-composite", "decorate-shared-typeguard", "decorate-shared-beartype",
-               "decorate-shared-old", "generator-new-shared", "call-ill", "call-raises", "hook-exception", "generator-none-suspended", "forward-reference-early-call", "address-reuse", "pytree-union-inner-structured", "protocol-array-pass"}
+               "decorate-shared-old", "generator-new-shared", "call-ill", "call-raises", "hook-exception", "generator-none-suspended", "forward-reference-early-call", "address-reuse", "pytree-union-inner-structured", "protocol-array-pass", "deep-recursion"}
 
 
 def reset_shared():
